@@ -88,21 +88,8 @@ def accumulated_distances_rule(ctx, rule: str):
     def steps_cumsum(t: T):
         if not is_call_to(t, "numpy.cumsum") or not t.args[1]:
             return None
-        nrm = t.args[1][0]
-        if not is_call_to(nrm, "numpy.linalg.norm") or not nrm.args[1]:
-            return None
-        ax = dict(nrm.args[2]).get("axis")
-        d = nrm.args[1][0]
-        consecutive = False
-        if d.op == "binop" and d.args[0] == "Sub":
-            consecutive = {d.args[1], d.args[2]} == {tm.sub(x, SM1),
-                                                     tm.sub(x, S1)}
-        elif is_call_to(d, "numpy.diff") and d.args[1] and \
-                d.args[1][0] is x:
-            consecutive = tm.is_const(dict(d.args[2]).get("axis",
-                                                          const(-1)), 0)
-        return consecutive and ax is not None and tm.is_const(ax) and \
-            ax.args[1] in (1, -1)
+        from ..lib import step_norms
+        return step_norms(t.args[1][0], x)
     verdict = None
     why = fmt(ret)[:140]
     if is_call_to(ret, "numpy.concatenate", "numpy.hstack", "numpy.append",
